@@ -307,3 +307,37 @@ def impl_result_only(case):
     elif not isinstance(res, str):
         res = np.asarray(res).tolist()
     return dict(result=res, fft_after=r["fft_after"])
+
+
+def edited_reprocess_probe(case, rng):
+    """process, EDIT the same recording objects in place (every component rescaled by its own factor, a few samples overwritten; lengths and time steps kept),
+    process the same objects again (equal settings), and compare with fresh recording objects built from the edited samples processed with fresh
+    settings: a result may depend on what the recordings hold NOW, not on anything remembered from an earlier call. Returns None (agree / not judged) or a dict."""
+    srecords = [make_srecord(r) for r in case["records"]]
+    settings = make_settings(case)
+    first = run_impl(case, srecords=srecords, settings=settings)
+    if isinstance(first["result"], str):
+        return None
+    edited = []
+    for sr, r in zip(srecords, case["records"]):
+        e = dict(r)
+        for comp in ("ns", "ew", "vt"):
+            ts = getattr(sr, comp)
+            f = float(rng.choice([0.5, 2.0, 3.0, 0.25]))
+            ts.amplitude *= f                                            # in place, on the object the caller keeps
+            k = int(rng.integers(0, len(ts.amplitude)))
+            ts.amplitude[k] = ts.amplitude[k] + float(np.max(np.abs(ts.amplitude))) * 0.5
+            e[comp] = [float(x) for x in ts.amplitude]
+        edited.append(e)
+    # a fresh settings object for the second call: re-using one whose fft_settings were {"n": None} is the recorded finding C09-c (the stored length changes)
+    second = run_impl(case, srecords=srecords, settings=make_settings(case))
+    fresh_case = dict(case, records=edited)
+    ref = run_impl(fresh_case)
+    a, b = second["result"], ref["result"]
+    if isinstance(a, str) or isinstance(b, str):
+        return None if (isinstance(a, str) and isinstance(b, str)) else dict(second=str(a)[:80], fresh=str(b)[:80], edited_records=edited)
+    la = a if isinstance(a, list) else [a]
+    lb = b if isinstance(b, list) else [b]
+    if len(la) != len(lb) or any(x.shape != y.shape for x, y in zip(la, lb)) or any(not np.allclose(x, y, rtol=1e-9, atol=0, equal_nan=True) for x, y in zip(la, lb)):
+        return dict(edited_records=edited, second_call=[np.asarray(x).tolist() for x in la], fresh_objects=[np.asarray(y).tolist() for y in lb])
+    return None
